@@ -64,6 +64,8 @@ class Associate(Block):
         # Loop through the list of the associated variables map and resolve the links
         # find the AST node that that corresponds to the variable with link_name
         for assoc in self.links:
+            # Forget the object found earlier, it may not exist anymore
+            assoc.var.link_obj = None
             # TODO: extract the dimensions component from the link_name
             # re.sub(r'\(.*\)', '', link_name) removes the dimensions component
             # keywords = re.match(r'(.*)\((.*)\)', link_name).groups()
